@@ -112,8 +112,9 @@ def run(ctx):
                     ('_unmake_fst_tree', '_fields')):
         for fi in ctx.repo.funcs('fst_core', q):
             want = set(must.split('|'))
+            from ..struct import with_helpers
             uses = any((isinstance(x, ast.Call) and call_name(x) in want) or (isinstance(x, ast.Attribute) and x.attr in want) or
-                       (isinstance(x, ast.Name) and x.id in want) for x in ast.walk(fi.node))
+                       (isinstance(x, ast.Name) and x.id in want) for g in with_helpers(ctx.repo, fi) for x in ast.walk(g.node))
             ctx.check('R1.4', uses, 'fst_core', fi.qualname, f'{q} enumerates children via {must}',
                       f'{q} must reach all children through the grammar-driven enumeration', fi.lineno)
     check_primitive_puts(ctx)
@@ -168,7 +169,14 @@ def check_bistr(ctx, fi, adopters=None):
                 bistr_funcs.add(q.rsplit('.', 1)[1])
 
     def is_get_src_lines(v):
-        return isinstance(v, ast.Call) and call_name(v) == '_get_src' and v.args and norm(v.args[-1]) == 'True'
+        # `_get_src(ln, col, end_ln, end_col, as_lines)` asked for lines: fifth positional (or the last one after `*loc`) / keyword
+        if not (isinstance(v, ast.Call) and call_name(v) == '_get_src'):
+            return False
+        if any(k.arg == 'as_lines' and isinstance(k.value, ast.Constant) and k.value.value is True for k in v.keywords):
+            return True
+        if not v.args or not (isinstance(v.args[-1], ast.Constant) and v.args[-1].value is True):
+            return False
+        return len(v.args) == 5 or any(isinstance(a, ast.Starred) for a in v.args[:-1])
 
     def is_live_expr(e, live):
         if isinstance(e, ast.Name):
